@@ -250,6 +250,52 @@ theorem glob_sorted_bytewise (hwf : WF fs) (noglob : Bool) :
     (glob m fs noglob field).Pairwise (fun a b => utf8Bytes a < utf8Bytes b) :=
   (glob_sorted_lex m fs field hwf noglob).imp (fun {a b} h => (utf8Bytes_lt_iff a b).mp h)
 
+/-! ### which fields are globbed at all (`expand_word_with_mode`, `expand_words`, `expand_value`) -/
+
+/-- ★ `Single` mode (scalar assignment values, `name=value` operands of declaration utilities) never
+    globs: whatever the file system and the matcher, each field is returned with its quotes removed. -/
+theorem single_mode_never_globs (noglob : Bool) (fields : List (List AttrChar)) :
+    expandFields m fs noglob Mode.single fields = fields.map removeQuotes := rfl
+
+/-- `Multiple` mode handles the fields one by one and in order: the result for a list of fields is the
+    concatenation of the results for its parts (command words, `for` lists, array values, and the
+    several fields one word splits into) -/
+theorem expandFields_append (noglob : Bool) (mode : Mode) (f g : List (List AttrChar)) :
+    expandFields m fs noglob mode (f ++ g)
+      = expandFields m fs noglob mode f ++ expandFields m fs noglob mode g := by
+  cases mode <;> simp [expandFields]
+
+/-- a pathname is in the result iff some field expands to it -/
+theorem mem_expandFields_multiple (noglob : Bool) (fields : List (List AttrChar)) (p : Path) :
+    p ∈ expandFields m fs noglob Mode.multiple fields ↔ ∃ f, f ∈ fields ∧ p ∈ glob m fs noglob f := by
+  simp [expandFields, List.mem_flatMap]
+
+/-- ★ the whole step meets its Spec: with consistent oracles the model's `expandFields` equals the
+    executable Spec `specFieldsU` (each field replaced in order by the sorted pathnames it stands for,
+    or by itself), in both modes -/
+theorem expandFields_eq_spec (hwf : WF fs) (univ : List Name) (hU : UnivCovers fs univ) (noglob : Bool)
+    (mode : Mode) (fields : List (List AttrChar)) :
+    specFieldsU m fs univ noglob mode fields = expandFields m fs noglob mode fields := by
+  cases mode with
+  | single => rfl
+  | multiple =>
+    simp only [specFieldsU, expandFields]
+    induction fields with
+    | nil => rfl
+    | cons f t ih =>
+      simp only [List.flatMap_cons, ih, specGlobU_eq_glob m fs f hwf univ hU noglob]
+
+/-- with `noglob` every field of every mode is returned verbatim (quotes removed) -/
+theorem expandFields_noglob (mode : Mode) (fields : List (List AttrChar)) :
+    expandFields m fs true mode fields = fields.map removeQuotes := by
+  cases mode with
+  | single => rfl
+  | multiple =>
+    simp only [expandFields]
+    induction fields with
+    | nil => rfl
+    | cons f t ih => simp [List.flatMap_cons, ih, glob_noglob]
+
 /-! ### non-vacuity: a concrete system and matcher meeting every hypothesis, with a two-result expansion -/
 
 /-- three files `a`, `b`, `.h` in the working directory -/
@@ -350,6 +396,7 @@ example : UnivCovers fs₀ [['a'], ['b'], ['.', 'h']] := by
   · cases h
 -- a two-byte and a three-byte character: code-point order = byte order
 example : pathLe ['é'] ['€'] = true ∧ utf8Bytes ['é'] = [0xc3, 0xa9] ∧ utf8Bytes ['€'] = [0xe2, 0x82, 0xac] := by decide
+example : expandFields m₀ fs₀ false Mode.single [star] = [['*']] := by decide
 example : NoWild m₀ (splitComponents qstar).1 (splitComponents qstar).2 := by unfold NoWild; decide
 example : (splitComponents star).2 = []
     ∧ m₀.kind (toPattern (splitComponents star).1) = Kind.pattern := by decide
